@@ -39,6 +39,7 @@ type c14Extra struct {
 	SchemaArticles  int    `json:"schema_articles"`
 	SchemaTitle     string `json:"schema_title"`      // headline/name of the first article that has one
 	SchemaRelAuthor string `json:"schema_rel_author"` // text of the first rel=author element that has text
+	SchemaArticleHasAuthor bool `json:"schema_article_has_author"` // some article item carries an author or creator property
 	SchemaDatePin   string `json:"schema_date_pin"`   // text of the first article's <time itemprop=datePublished> that has no datetime attribute
 	SchemaAuthorPin string `json:"schema_author_pin"` // name of the Person author of the first article when it follows an unsupported-type author item
 	// IE
@@ -70,13 +71,13 @@ func genC14(t *rapid.T) *Case {
 		switch g.pick("ogprefix", "default", "html-prefix", "head-prefix", "xmlns", "custom", "default", "xmlns-custom") {
 		case "xmlns-custom":
 			pfx = "opengraph"
-			htmlAttr = ` xmlns:opengraph="http://ogp.me/ns#"`
+			htmlAttr = ` lang="en" xmlns:opengraph="http://ogp.me/ns#" class="no-js"`
 		case "html-prefix":
-			htmlAttr = ` prefix="og: http://ogp.me/ns# article: http://ogp.me/ns/article# profile: http://ogp.me/ns/profile#"`
+			htmlAttr = ` prefix="og: http://ogp.me/ns# ` + g.pick("fbns", "", "fb: http://ogp.me/ns/fb# ", "fb: http://ogp.me/ns/fb# video: http://ogp.me/ns/video# ") + `article: http://ogp.me/ns/article# profile: http://ogp.me/ns/profile#"`
 		case "head-prefix":
 			headAttr = ` prefix="og: http://ogp.me/ns#"`
 		case "xmlns":
-			htmlAttr = ` xmlns:og="http://ogp.me/ns#"`
+			htmlAttr = ` lang="en" data-theme="dark" xmlns:og="http://ogp.me/ns#" xmlns:fb="http://ogp.me/ns/fb#" class="js"`
 		case "custom":
 			pfx = "foo"
 			htmlAttr = ` prefix="foo: http://ogp.me/ns#"`
@@ -311,13 +312,16 @@ func genC14(t *rapid.T) *Case {
 					// the author first as an embedded item of a type the parser does not support (it
 					// provides nothing), then as a Person: the Person is the author
 					ex.SchemaAuthorPin = g.val("scp", 2)
+					ex.SchemaArticleHasAuthor = true
 					b.WriteString(`<span itemprop="author" itemscope itemtype="http://schema.org/` + g.pick("unsupptype", "NewsMediaOrganization", "Brand", "Thing") + `"><span itemprop="name">` + g.val("scw", 2) + `</span></span>`)
 					b.WriteString(`<span itemprop="author" itemscope itemtype="http://schema.org/Person"><span itemprop="name">` + ex.SchemaAuthorPin + `</span></span>`)
 				} else if g.chance(50, "scauthor") {
 					b.WriteString(strOrItem("author"))
+					ex.SchemaArticleHasAuthor = true
 				}
 				if g.chance(25, "sccreator") {
 					b.WriteString(strOrItem("creator"))
+					ex.SchemaArticleHasAuthor = true
 				}
 				if g.chance(40, "scsection") {
 					b.WriteString(`<span itemprop="articleSection">` + g.val("scx", 2) + `</span>`)
@@ -577,6 +581,9 @@ func checkC14(c *Case) (*Violation, caseInfo) {
 	} else if ex.SchemaRelAuthor != "" && sc.Author != ex.SchemaRelAuthor {
 		// without an article item the author can only come from rel=author
 		return violationf("C14 schemaorg-rel-author", "rel=author element with text %q (no article item) yields Author=%q", ex.SchemaRelAuthor, sc.Author), info
+	}
+	if ex.SchemaArticles > 0 && !ex.SchemaArticleHasAuthor && ex.SchemaRelAuthor != "" && sc.Author != ex.SchemaRelAuthor {
+		return violationf("C14 schemaorg-rel-author-with-authorless-article", "no article item names an author or creator, the page has a rel=author element with text %q, but schema.org yields Author=%q", ex.SchemaRelAuthor, sc.Author), info
 	}
 	if ex.SchemaDatePin != "" && sc.Article.PublishedTime != ex.SchemaDatePin {
 		return violationf("C14 schemaorg-date-from-element-text", "the first article's datePublished is a <time> element without datetime attribute and the text %q, but schema.org yields PublishedTime=%q", ex.SchemaDatePin, sc.Article.PublishedTime), info
